@@ -24,7 +24,8 @@ PROPS = {
               'documented unsupported tests/actions/format fields/options, the error kind names such a construct, and every other '
               'parser-shaped tree compiles. All trees, unbounded depth.',
         not_decided=['the text of the error message (format!("{:?}") is opaque)',
-                     'that <Vec<FormatElement>>::compile propagates placeholder()\'s refusal (iterator collect::<Result>; assumed contract)',
+                     'std iterator plumbing inside <Vec<FormatElement>>::compile (map/collect::<Result>, filter_map/collect, join) is hoisted and '
+                     'assumed to apply the verified closures to every element in order (ASSUME.iter_*)',
                      'that the parser only returns trees without Global/Precedence nodes (front end)'],
     ),
     'C09': dict(
@@ -62,12 +63,12 @@ PROPS = {
     ),
     'C03': dict(
         level='proof',
-        kani=['format', 'units', 'timespec', 'filetype', 'permission'],
+        kani=['format', 'units', 'timespec', 'filetype', 'permission', 'target_scheme'],
         scope='every function verified in place (see coverage.functions_verified_for_safety) is proved free of panics (unwrap, unreachable!, '
               'todo!, index), arithmetic overflow and non-termination, for all parser-shaped trees with fewer than 2^30 nodes, under '
               'both debug_assertions settings; lifted front-end fragments with unwrap()s are decided by Kani over the domain the '
               'adjacent combinator admits.',
-        not_decided=['the external_body leaves (coverage.external_body_assumed), notably duration_since(UNIX_EPOCH).unwrap() and comps.first().unwrap()',
+        not_decided=['the hoisted leaves (coverage.assumption_scan): the clock read duration_since(UNIX_EPOCH).unwrap(), std iterator plumbing, slice join, str::contains',
                      'all combinator code incl. parse()\'s into_inner().unwrap() and ParserError::dispatch; thiserror\'s Display'],
     ),
     'C17': dict(
@@ -108,9 +109,11 @@ PROPS = {
         scope='string_escape / template_escape verified in place (loop invariants) against esc / tesc; lemma: for every user string s and '
               'every continuation, the reader decodes `esc(s)"rest` to exactly s and stops at that quote; and the exact emitted text of '
               'every interpolation site outside format strings is literal · esc(user) · literal: matcher patterns (both managers), '
-              'output file names, -pool, -xattr, -xattr-match (both arguments), the device path; generated names contain no user text.',
-        not_decided=['format strings: literal text, escapes, strftime selectors and %{xattr:NAME} go through <Vec<FormatElement>>::compile, '
-                     'literal() and snippet() (iterator chains; assumed contracts)',
+              'output file names, -pool, -xattr, -xattr-match (both arguments), the device path; generated names contain no user text; '
+              'format strings: the emitted form is exactly (format #f "<template>" <arguments>) with the template the concatenation of '
+              'tesc(literal text) (quote, backslash and tilde escaped), the fixed placeholders and the escapes, strftime selectors and '
+              '%{xattr:NAME} names as escaped string literals.',
+        not_decided=['a read-back lemma for a whole format template (concatenation of escaped pieces) is not stated; per-piece escaping is proved',
                      '`reads back as exactly two top-level forms` for the whole program (no reader specification of the full Scheme grammar)',
                      'which characters a word or quoted string may contain (winnow combinators in prelude.rs)'],
     ),
